@@ -34,6 +34,7 @@ struct St {
     host_pokes: u64,
     troubled_tapes: u64,
     steps_reporting_errors: u64,
+    aged_cases: u64,
     sample: Vec<J>,
 }
 
@@ -47,6 +48,17 @@ fn conservation(ctx: &Ctx, rng: &mut Rng, is128: bool, st: &mut St, case: u64) {
         md.bank = v & 7;
     }
     let fr = md.frame();
+    // one case in sixteen runs on a machine that has some 250..520 frame ends behind it (passed
+    // quickly by putting the frame clock just before each frame's end): the frame end that is
+    // single-stepped below is then the 251st ... 520th since power-on, not the first
+    if rng.chance(1, 16) {
+        let age = *rng.pick(&[250u64, 506]) + rng.below(14);
+        for _ in 0..age {
+            m.set_clock(fr - 4);
+            m.run_frames(1);
+        }
+        st.aged_cases += 1;
+    }
     // random program: mostly plain instructions, some block/IO/HALT/EI, in a random region
     let base: u16 = *rng.pick(&[0x8000u16, 0x9000, 0x6000, 0xC000, 0x7FF0, 0xBFF0]);
     let mut prog = vec![];
@@ -515,6 +527,7 @@ pub fn run(ctx: &Ctx) -> Evidence {
         ev.add_num("host_pokes_between_instructions", r.host_pokes);
         ev.add_num("conservation_cases_with_a_troubled_tape_playing", r.troubled_tapes);
         ev.add_num("steps_whose_call_reported_an_error", r.steps_reporting_errors);
+        ev.add_num("conservation_cases_on_machines_250..520_frames_old", r.aged_cases);
         over.extend(r.overruns);
         for s in r.sample {
             ev.sample(s);
